@@ -43,8 +43,11 @@ SumInits ==
        [kind |-> "sum", parts |-> <<LabelT(ShapeC)>>],
        [kind |-> "sum", parts |-> <<s, LabelT(ShapeC), LabelK(ShapeC, 1)>>]}
 
+\* large sparse tensors with a few entries (mode products beyond the range of narrow integer subscript types)
+BigPatterns == {{}, {NC}, {1, NC}, {k \in 1..NC : k % 47 = 0}}
 InitObjs ==
-  IF KOnly THEN {LabelK(ShapeC, R) : R \in 1..2} \cup {LabelT(ShapeC)} \cup {[kind |-> "sum", parts |-> <<LabelK(ShapeC, 2)>>]}
+  IF KOnly /\ NC > 100 THEN UNION {{SparseObj(S) : S \in SparseOf(c, FALSE)} : c \in BigPatterns}
+  ELSE IF KOnly THEN {LabelK(ShapeC, R) : R \in 1..2} \cup {LabelT(ShapeC)} \cup {[kind |-> "sum", parts |-> <<LabelK(ShapeC, 2)>>]}
   ELSE
   {DenseObj(MaskedLabelD(ShapeC, c)) : c \in Patterns}
   \cup UNION {{SparseObj(S) : S \in SparseOf(c, AllOrders)} : c \in Patterns}
